@@ -46,8 +46,17 @@ fn gen_specs(rng: &mut impl Rng, force_acl: bool) -> Vec<gen::EntrySpec> {
 }
 
 /// archive with a mix of normal entries and solid blocks (blocks carry their own private chunk)
-fn build_archive(rng: &mut impl Rng, cfg: &Cfg, one_big_block: bool, force_acl: bool) -> (Vec<u8>, serde_json::Value) {
+fn build_archive(rng: &mut impl Rng, cfg: &Cfg, one_big_block: bool, force_acl: bool, force_links: bool) -> (Vec<u8>, serde_json::Value) {
     let mut specs = gen_specs(rng, force_acl);
+    if force_links {
+        for (i, e) in specs.iter_mut().enumerate() {
+            if i % 2 == 0 {
+                e.kind = Kind::Symlink; e.link = "a.txt".into(); e.content = vec![]; e.writes = vec![];
+                e.xattrs = vec![("user.k0".into(), b"on a link".to_vec()), ("user.k1".into(), vec![])];
+                e.extras = vec![(*b"myTy", b"link-private".to_vec()), (*b"faCl", b"linux".to_vec()), (*b"faCe", b"linux:d:u:alice:allow:r,w".to_vec())];
+            }
+        }
+    }
     if one_big_block {
         // a solid block of at least four entries, so that an edit can hit its first, middle and last entry
         while specs.len() < 4 {
@@ -156,6 +165,10 @@ pub fn edit(ctx: &mut Ctx) {
     for case in 0..n {
         let mut cfg = gen::gen_cfg(&mut rng, false);
         if case % 4 != 0 { cfg.enc = 0; }
+        // … and four runs on an ENCRYPTED solid block that holds symbolic links carrying attributes and private chunks, rewritten
+        // with --unsolid (the block's entries are re-encoded under the block's cipher: everything else of them must survive)
+        let forced_link = (28..32).contains(&case);
+        if forced_link { cfg.enc = 1 + (case % 2) as u8; cfg.mode = (case / 2 % 2) as u8; }
         let pw = if cfg.enc != 0 { Some(cfg.password.clone()) } else { None };
         // the first cases of every run: one solid block of >= 4 entries, `delete` of a single entry (first, middle,
         // last in turn) and of a pattern, under both strategies
@@ -166,13 +179,13 @@ pub fn edit(ctx: &mut Ctx) {
         // … then eight `chown` runs (user only, group only, both, unknown names) over all entries, every entry carrying an
         // owner whose uid and gid differ
         let forced_chown = (20..28).contains(&case);
-        let (bytes0, desc) = build_archive(&mut rng, &cfg, forced, forced_strip || forced_chown);
+        let (bytes0, desc) = build_archive(&mut rng, &cfg, forced || forced_link, forced_strip || forced_chown, forced_link);
         let sbx = Sbx::new("edit", case);
         let apath = sbx.path("a.pna");
         std::fs::write(&apath, &bytes0).unwrap();
         let before = match read_logical(&[bytes0.clone()], pw.as_deref()) { Ok(v) => v, Err(e) => { ctx.notes.push(format!("generated archive unreadable: {e}")); continue; } };
         let names: Vec<String> = flat(&before).iter().map(|e| e.name.clone()).collect();
-        let strategy = if forced { if case % 2 == 0 { "keep-solid" } else { "unsolid" } } else if rng.gen_bool(0.5) { "unsolid" } else { "keep-solid" };
+        let strategy = if forced_link { "unsolid" } else if forced { if case % 2 == 0 { "keep-solid" } else { "unsolid" } } else if rng.gen_bool(0.5) { "unsolid" } else { "keep-solid" };
         let npat = rng.gen_range(1..3);
         let single: String = if names.is_empty() { "a.txt".into() } else { globset::escape(&names[[0, names.len() / 2, names.len() - 1][(case / 2) % 3].min(names.len() - 1)]) };
         let pats: Vec<&str> = if forced && case < 6 { vec![single.as_str()] } else if forced_chown { vec!["**"] } else { (0..npat).map(|_| PATTERNS[rng.gen_range(0..PATTERNS.len())]).collect() };
@@ -183,7 +196,7 @@ pub fn edit(ctx: &mut Ctx) {
         let mut strip_keep: Option<(bool, Vec<[u8; 4]>, bool, bool, bool)> = None; // (keep all private, kept types, timestamps, permission, xattrs)
         let cmd: &str;
         let model_req: String;
-        match if forced { 0 } else if forced_strip { 5 } else if forced_chown { 2 } else { rng.gen_range(0..8) } {
+        match if forced { 0 } else if forced_strip { 5 } else if forced_chown { 2 } else if forced_link { [1, 0, 3, 6][case - 28] } else { rng.gen_range(0..8) } {
             6 => {
                 // `acl set -m`: the entry's access-control chunks are rewritten; nothing else of the entry, and nothing of any other entry
                 cmd = "acl";
@@ -373,7 +386,9 @@ pub fn edit(ctx: &mut Ctx) {
                 }
                 if !diffs.is_empty() {
                     ctx.violation("C10", "an editing command changed more than the attribute it names", json!({"case":attrs,"entry":b.name,"selected":selected,"changed":diffs}));
-                    if diffs.contains(&"private chunks") { ctx.violation("C13", "an editing command dropped unknown chunks of an entry", json!({"case":attrs,"entry":b.name})); }
+                    if diffs.contains(&"private chunks") || diffs.contains(&"private chunks other than the access-control chunks") { ctx.violation("C13", "an editing command dropped unknown chunks of an entry", json!({"case":attrs,"entry":b.name})); }
+                    // strip is allowed to drop what its options name — not the chunks it was told to keep
+                    if diffs.contains(&"private chunks kept or removed against the --keep-acl / --keep-private options") && b.extras.len() > a.extras.len() { ctx.violation("C13", "strip dropped private chunks that its options say to keep", json!({"case":attrs,"entry":b.name,"kept":a.extras.len(),"before":b.extras.len()})); }
                     if diffs.contains(&"raw size") { ctx.violation("C13", "an editing command dropped or changed the size chunk (fSIZ) of an entry it only passes through", json!({"case":attrs,"entry":b.name,"before":format!("{:?}", b.raw_size),"after":format!("{:?}", a.raw_size)})); }
                 }
             }
